@@ -3,6 +3,7 @@
 
 pub mod hist;
 pub mod hookrec;
+pub mod sched;
 pub mod sysx;
 
 use serde::{Deserialize, Serialize};
